@@ -279,8 +279,11 @@ class Inliner:
             isinstance(body_[-1], ast.Raise) or
             (isinstance(body_[-1], ast.Assert) and isinstance(body_[-1].test, ast.Constant)
              and body_[-1].test.value is False))
-        returns_none = any(isinstance(n, ast.Return) and
-                           (n.value is None or _is_none(n.value)) for n in ast.walk(fn))
+        def _none_valued(v) -> bool:
+            return v is None or _is_none(v) or (
+                isinstance(v, ast.IfExp) and (_none_valued(v.body) or _none_valued(v.orelse)))
+        returns_none = any(isinstance(n, ast.Return) and _none_valued(n.value)
+                           for n in ast.walk(fn))
         if returns_none or (_falls_through(body_) and not ends_unreachable):
             self.may_be_none.add(result)
         params = [a.arg for a in fn.args.posonlyargs + fn.args.args]
@@ -1011,8 +1014,11 @@ def split_optional_results(fn: ast.FunctionDef, results: Set[str],
 
     for R in sorted(results):
         vals = values_of(R)
-        if len(vals) < 2 or not any(_is_none(v) for v in vals) or \
-                all(_is_none(v) for v in vals):
+        # a single conditional value `v if c else None` counts as two alternatives
+        flat = [x for v in vals for x in ((v.body, v.orelse) if isinstance(v, ast.IfExp)
+                                          else (v,))]
+        if len(flat) < 2 or not any(_is_none(v) for v in flat) or \
+                all(_is_none(v) for v in flat):
             continue
         # IfExp values `v if c else None` are split into statements first
         for blk in list(blocks(fn)):
